@@ -309,6 +309,7 @@ func engineOracles(c *Ctx, ec *eCase, recs []reqRec) {
 	var prev *reqRec
 	dupSeen := false
 	okSeen := false
+	failedBefore := false // an earlier request of the history failed inside Exec or Flush (not a refused input)
 	for i := range recs {
 		r := &recs[i]
 		if r.x == "stopped" {
@@ -396,9 +397,20 @@ func engineOracles(c *Ctx, ec *eCase, recs []reqRec) {
 		}
 		// ---- C06 / C20: while TERMINATE is set nothing runs
 		if prev != nil && pers && flagBit(prev.flags, 6) && !refusedInput(in) && !(ec.roe && len(in) == 0) {
-			if len(r.calls) > 0 || len(r.out) > 0 || r.cont || strings.Join(prev.path, "/") != strings.Join(r.path, "/") || prev.idx != r.idx {
+			ran := len(r.calls) > 0 || r.cont || strings.Join(prev.path, "/") != strings.Join(r.path, "/") || prev.idx != r.idx
+			if ran {
+				// C06: nothing runs, nothing is called, no position changes
 				c.Fail("C06", "terminate-not-blocking", fmt.Sprintf("%s: TERMINATE was set but calls=%d out=%q cont=%v path %v->%v", where, len(r.calls), trunc(string(r.out), 40), r.cont, prev.path, r.path))
-				c.Fail("C20", "terminate-not-blocking", fmt.Sprintf("%s: TERMINATE was set but calls=%d out=%q cont=%v path %v->%v", where, len(r.calls), trunc(string(r.out), 40), r.cont, prev.path, r.path))
+			}
+			if ran || len(r.out) > 0 {
+				// C20: ... and no output either
+				cls := "terminate-not-blocking"
+				if !ran && failedBefore {
+					// the request that set TERMINATE (or a later one) failed before its page was flushed: the stored state
+					// still says "page pending", and the blocked request renders it
+					cls = "blocked-request-renders-after-failed-request"
+				}
+				c.Fail("C20", cls, fmt.Sprintf("%s: TERMINATE was set but calls=%d out=%q cont=%v path %v->%v", where, len(r.calls), trunc(string(r.out), 40), r.cont, prev.path, r.path))
 			}
 		}
 		// ---- C06: reserved flag 5 never set; user flags follow the handlers' requests
@@ -761,6 +773,9 @@ func engineOracles(c *Ctx, ec *eCase, recs []reqRec) {
 		}
 		if r.x == "ok" {
 			okSeen = true
+		}
+		if (r.x == "err" && !refusedInput(in)) || r.f == "err" {
+			failedBefore = true
 		}
 		prev = r
 	}
